@@ -5,7 +5,7 @@ images of every container incl. flux images where verbose mode dumps headers and
 all commands) is re-run with each diagnostic option at each position, with every --ui style, and under a pseudo-terminal
 with COLUMNS 20/40/80; TraceCli-style judgement by TraceDiff.tla: byte-equal stdout and exit status, for cat under
 --ui/COLUMNS equality of the projected content; every run twice."""
-import os, json, random, pty, subprocess, select, shutil
+import os, json, random, pty, subprocess, select, shutil, zlib
 import common, mkdisc, discs
 import c10, c07
 
@@ -120,7 +120,7 @@ def run(chk, tier, seed):
                                 rc=base.rc if base.rc is not None else -9, rc2=o.rc if o.rc is not None else -9, clean=1 if o.ok_alphabet() else 0))
             # the same pairs in other surroundings: COLUMNS exported while stdout is a file (it is then ignored, with or without
             # --verbose), and a standard error that cannot be written (the diagnostics are lost, the result is not)
-            if cmd[0] in ("cat", "info") and (not quick or hash(tag) % 2 == 0 or cmd[0] == "cat"):
+            if cmd[0] in ("cat", "info") and (not quick or zlib.crc32(tag.encode()) % 2 == 0 or cmd[0] == "cat"):
                 for cols in ("20", "39", "132"):
                     for ui in ((None, "watford") if cmd[0] == "cat" else (None,)):
                         pre = ["--ui", ui] if ui else []
@@ -147,7 +147,9 @@ def run(chk, tier, seed):
                 for ui in (None, "acorn", "watford", "opus"):
                     if ui is not None and ref is None:
                         break
-                    for cols in (None, "20", "40", "80"):
+                    # (widths a terminal has, and values that are not a width at all: too large for an int, zero, negative, not a number)
+                    for cols in (None, "20", "40", "80") + (("2147483648", "99999999999", "999999999999999999999999999", "0", "-5", "abc", "132")
+                                                              if (not quick or zlib.crc32(tag.encode()) % 3 == 0 or tag.startswith("dfs-400")) else ()):
                         argv = [dfs, "--file", path] + (["--ui", ui] if ui else []) + cmd
                         if cols is None:
                             o_rc, o_out = (lambda o: (o.rc, o.out))(common.run(argv, timeout=60))
